@@ -296,24 +296,52 @@ impl Transform {
     /// Has Ellipsis Variable
     ///
     /// Does the template contain a pattern variable that was bound under an
-    /// ellipsis in the pattern and is not itself consumed by a nested
-    /// ellipsis of the template?
+    /// ellipsis in the pattern and is not consumed by a nested ellipsis of
+    /// the template itself?
     fn has_ellipsis_variable(template: &Cell, pattern: &Pattern, ellipsis: &Cell) -> bool {
+        let mut drivers = vec![];
+        let mut consumed = vec![];
+        Self::collect_ellipsis_variables(
+            template,
+            pattern,
+            ellipsis,
+            false,
+            &mut drivers,
+            &mut consumed,
+        );
+        drivers.iter().any(|it| !consumed.contains(it))
+    }
+
+    /// Collect Ellipsis Variables
+    ///
+    /// Collect the ellipsis pattern variables of template into `drivers`, or
+    /// into `consumed` if they sit under an ellipsis of the template itself.
+    fn collect_ellipsis_variables<'a>(
+        template: &'a Cell,
+        pattern: &Pattern,
+        ellipsis: &Cell,
+        nested: bool,
+        drivers: &mut Vec<&'a Cell>,
+        consumed: &mut Vec<&'a Cell>,
+    ) {
         match template {
-            Cell::Symbol(_) => pattern.is_expanded_variable(template),
+            Cell::Symbol(_) if pattern.is_expanded_variable(template) => match nested {
+                true => consumed.push(template),
+                false => drivers.push(template),
+            },
             Cell::Pair(_, _) => {
                 let mut iter = template.iter().peekable();
                 while let Some(it) = iter.next() {
-                    if it == ellipsis || iter.peek() == Some(&ellipsis) {
+                    if it == ellipsis {
                         continue;
                     }
-                    if Self::has_ellipsis_variable(it, pattern, ellipsis) {
-                        return true;
-                    }
+                    let nested = nested || iter.peek() == Some(&ellipsis);
+                    Self::collect_ellipsis_variables(
+                        it, pattern, ellipsis, nested, drivers, consumed,
+                    );
                 }
-                false
             }
-            _ => false,
+            _ => {}
         }
     }
 
